@@ -7,6 +7,7 @@ import time
 import hashlib
 
 VERIF = '/verif'
+EVDIR = os.environ.get('VERIF_EVIDENCE_DIR', os.path.join(VERIF, 'evidence'))
 
 
 def seed():
@@ -64,13 +65,13 @@ class Report:
 
     def finish(self):
         wall = time.time() - self.t0
-        os.makedirs(os.path.join(VERIF, 'evidence', 'replays'), exist_ok=True)
+        os.makedirs(os.path.join(EVDIR, 'replays'), exist_ok=True)
         lines = []
         for sig, (kid, text, what) in sorted(self.known_hit.items()):
             lines.append('KNOWN-FINDING: property=%s id=%s sig=%s :: %s' % (self.prop, kid, sig, text))
         for sig, what, replay in self.violations:
             h = hashlib.sha1(sig.encode()).hexdigest()[:10]
-            rp = os.path.join(VERIF, 'evidence', 'replays', '%s-%s.json' % (self.prop, h))
+            rp = os.path.join(EVDIR, 'replays', '%s-%s.json' % (self.prop, h))
             with open(rp, 'w') as f:
                 json.dump({'property': self.prop, 'signature': sig, 'what': what, 'replay': replay}, f, indent=1)
             lines.append('VIOLATION property=%s replay=%s' % (self.prop, rp))
@@ -81,7 +82,7 @@ class Report:
               'violations': len(self.violations),
               'known_findings_reproduced': sorted(k for k in self.known_hit),
               'notes': self.notes, 'problems': self.problems}
-        with open(os.path.join(VERIF, 'evidence', '%s.json' % self.prop), 'w') as f:
+        with open(os.path.join(EVDIR, '%s.json' % self.prop), 'w') as f:
             json.dump(ev, f, indent=1)
         for ln in lines:
             print(ln)
